@@ -3,6 +3,7 @@
 #![allow(dead_code)]
 
 use std::cell::RefCell;
+use std::future::Future;
 use std::collections::{BTreeMap, HashSet};
 use std::io::Write;
 use std::panic::{catch_unwind, AssertUnwindSafe};
@@ -48,6 +49,11 @@ impl Rng {
     }
     pub fn bytes(&mut self, n: usize) -> Vec<u8> {
         (0..n).map(|_| self.next() as u8).collect()
+    }
+    /// random bytes of a random length in lo..=hi
+    pub fn rbytes(&mut self, lo: usize, hi: usize) -> Vec<u8> {
+        let n = self.range(lo, hi);
+        self.bytes(n)
     }
     pub fn shuffle<T>(&mut self, v: &mut [T]) {
         for i in (1..v.len()).rev() {
@@ -125,6 +131,7 @@ impl Args {
 // ---------------------------------------------------------------- panic capture
 thread_local! {
     static LAST_PANIC: RefCell<Option<(String, String)>> = RefCell::new(None);
+    static GUARD_DEPTH: RefCell<usize> = RefCell::new(0);
 }
 
 pub fn install_panic_hook() {
@@ -140,13 +147,17 @@ pub fn install_panic_hook() {
         } else {
             "<non-string panic>".to_string()
         };
+        if GUARD_DEPTH.with(|d| *d.borrow()) == 0 {
+            // a panic outside a monitored call is a harness bug: make it loud
+            eprintln!("HARNESS PANIC at {:?}: {}", info.location(), msg);
+        }
         LAST_PANIC.with(|p| *p.borrow_mut() = Some((loc, msg)));
     }));
 }
 
 /// file path shortened to be stable across machines (strip registry prefixes)
 pub fn short_loc(loc: &str) -> String {
-    if let Some(i) = loc.find("/src/") {
+    if let Some(i) = loc.rfind("/src/") {
         let head = &loc[..i];
         let crate_name = head.rsplit('/').next().unwrap_or("");
         // registry crates look like name-1.2.3: strip version
@@ -202,7 +213,10 @@ pub fn take_panic() -> Panicked {
 }
 
 pub fn guard<T>(f: impl FnOnce() -> T) -> Result<T, Panicked> {
-    match catch_unwind(AssertUnwindSafe(f)) {
+    GUARD_DEPTH.with(|d| *d.borrow_mut() += 1);
+    let r = catch_unwind(AssertUnwindSafe(f));
+    GUARD_DEPTH.with(|d| *d.borrow_mut() -= 1);
+    match r {
         Ok(v) => Ok(v),
         Err(_) => Err(take_panic()),
     }
@@ -226,9 +240,12 @@ pub fn run_budget<T>(fut: impl std::future::Future<Output = T>, max_polls: usize
     }
     let waker = unsafe { Waker::from_raw(noop_raw()) };
     let mut cx = TaskCx::from_waker(&waker);
-    let mut fut = Box::pin(fut);
+    // tokio's cooperative budget would make its primitives return Pending forever under manual polling
+    let mut fut = Box::pin(tokio::task::unconstrained(fut));
     for _ in 0..max_polls {
+        GUARD_DEPTH.with(|d| *d.borrow_mut() += 1);
         let r = catch_unwind(AssertUnwindSafe(|| fut.as_mut().poll(&mut cx)));
+        GUARD_DEPTH.with(|d| *d.borrow_mut() -= 1);
         match r {
             Err(_) => return Ran::Panicked(take_panic()),
             Ok(Poll::Ready(v)) => return Ran::Done(v),
